@@ -110,6 +110,7 @@ func gGenerated(r *lib.Rng, maxOps int, noAlias bool) func(h *gHist) {
 		nops := 4 + r.Intn(maxOps-3)
 		var mock, ordered, transfer []int
 		rateLimited := map[int]bool{}
+		creatorGone := map[int]bool{}
 		v2pairs := []int{}
 		for i := 0; i < nops; i++ {
 			switch k := r.Intn(20); {
@@ -121,7 +122,7 @@ func gGenerated(r *lib.Rng, maxOps int, noAlias bool) func(h *gHist) {
 			case k == 1:
 				cand := []int{}
 				for j, p := range h.pairs {
-					if !p.v2 {
+					if !p.v2 && !creatorGone[j] { // RegisterCounterparty must be signed by the stored creator
 						cand = append(cand, j)
 					}
 				}
@@ -161,7 +162,10 @@ func gGenerated(r *lib.Rng, maxOps int, noAlias bool) func(h *gHist) {
 			case k == 6 && len(mock) > 0 && r.Chance(0.5):
 				h.opConfig(h.chans[lib.Pick(r, mock)].epA.ChannelID)
 			case k == 7 && r.Chance(0.3):
-				h.opDeleteCreator(r.Intn(len(h.pairs)))
+				if j := r.Intn(len(h.pairs)); !creatorGone[j] {
+					creatorGone[j] = true
+					h.opDeleteCreator(j)
+				}
 			case k >= 8 && k <= 11: // v1 mock packet
 				all := append(append([]int{}, mock...), ordered...)
 				if len(all) == 0 {
@@ -170,6 +174,9 @@ func gGenerated(r *lib.Rng, maxOps int, noAlias bool) func(h *gHist) {
 				ci := lib.Pick(r, all)
 				data := lib.Pick(r, []string{"sync", "sync", "fail", "async"})
 				isOrdered := h.chans[ci].ordered
+				if isOrdered && data == "async" {
+					data = "sync" // an unacknowledged packet would block every later ack of an ORDERED channel
+				}
 				p := h.opSendV1(ci, r.Bool(), data, r.Chance(0.3) && !isOrdered)
 				h.progress(r, p, isOrdered)
 			case k >= 12 && k <= 14 && len(v2pairs) > 0: // v2 packet on light-client ids
